@@ -25,6 +25,9 @@ def load_event(s):
     e.failure = bool(data['failure'])
     e.notify = bool(data['notify'])
     e.channels = tuple(data['channels'])
+    if not all(isinstance(channel, str) for channel in e.channels):
+        # channels are used as dictionary keys by the dispatcher
+        raise TypeError('channels must be strings')
 
     for k, v in dict(data['meta']).items():
         if k.startswith('__') or k in META_EXCLUDE:
